@@ -7,8 +7,11 @@
 #include <sys/wait.h>
 #include <unistd.h>
 
+#include <foonathan/memory/heap_allocator.hpp>
+#include <foonathan/memory/malloc_allocator.hpp>
 #include <foonathan/memory/memory_arena.hpp>
 #include <foonathan/memory/memory_pool.hpp>
+#include <foonathan/memory/new_allocator.hpp>
 #include <foonathan/memory/memory_stack.hpp>
 #include <foonathan/memory/static_allocator.hpp>
 #include <foonathan/memory/virtual_memory.hpp>
@@ -142,6 +145,7 @@ namespace
         K_sib_dealloc,
         K_probe_foreign,
         K_min_block,
+        K_ll_exit,
         K__count
     };
     const char* kind_names[K__count] = {"alloc_node", "alloc_array", "try_alloc_node",
@@ -150,7 +154,7 @@ namespace
                                         "move_ctor", "move_assign", "swap", "zombie", "sweep",
                                         "cycle", "drain", "fill_block", "exhaust", "probe",
                                         "arm_fault", "replay_unwind", "bad_release", "sib_alloc",
-                                        "sib_dealloc", "probe_foreign", "min_block"};
+                                        "sib_dealloc", "probe_foreign", "min_block", "ll_exit"};
 
     struct Mode
     {
@@ -168,55 +172,56 @@ namespace
     // weights:                an  aa tn ta de ov mk uw ni sh rs mc ma sw zo sp cy dr fb ex pr af ru
     const Mode modes[] = {
         {"C01", O_CORE | O_NOREPORT | O_FILL, ALL_FAM,
-         {30, 12, 6, 4, 30, 1, 4, 4, 4, 2, 2, 2, 2, 1, 2, 3, 1, 1, 2, 1, 0, 0, 1, 0, 0, 0, 0, 0}, 200, false,
+         {30, 12, 6, 4, 30, 1, 4, 4, 4, 2, 2, 2, 2, 1, 2, 3, 1, 1, 2, 1, 0, 0, 1, 0, 0, 0, 0, 0, 0}, 200, false,
          "history with >=8 successful allocations, >=1 release between two allocations, and one of: "
          "upstream growth inside the history / array and node live together / >=2 buckets of a "
          "collection used / a move with live allocations"},
         {"C02", O_CORE | O_ALIGN, ALL_FAM,
-         {30, 20, 6, 6, 20, 0, 3, 3, 3, 1, 2, 1, 1, 0, 0, 3, 0, 1, 4, 0, 0, 0, 1, 0, 0, 0, 0, 0}, 200, false,
+         {30, 20, 6, 6, 20, 0, 3, 3, 3, 1, 2, 1, 1, 0, 0, 3, 0, 1, 4, 0, 0, 0, 1, 0, 0, 0, 0, 0, 0}, 200, false,
          "case with a successful request that has alignment>=8, or an array with count>=2, or sits in "
          "a position class (first in a fresh block / fills block / after growth / after unwind)"},
         {"C03", O_CORE | O_FAIL, ALL_FAM,
-         {20, 8, 8, 6, 16, 14, 2, 2, 3, 1, 1, 1, 1, 0, 0, 2, 0, 1, 3, 6, 0, 6, 0, 0, 0, 0, 0, 0}, 160, true,
+         {20, 8, 8, 6, 16, 14, 2, 2, 3, 1, 1, 1, 1, 0, 0, 2, 0, 1, 3, 6, 0, 6, 0, 0, 0, 0, 0, 0, 0}, 160, true,
          ">=1 failed request (oversize / exhaustion / injected upstream fault) followed by >=1 "
          "successful allocation and >=1 release of memory allocated before the failure"},
         {"C04", O_CORE | O_CONSERVE, FB(F_POOL) | FB(F_COLL),
-         {30, 16, 4, 4, 30, 0, 0, 0, 0, 0, 3, 1, 1, 0, 0, 2, 8, 6, 0, 0, 0, 0, 0, 0, 0, 0, 0, 0}, 200, false,
+         {30, 16, 4, 4, 30, 0, 0, 0, 0, 0, 3, 1, 1, 0, 0, 2, 8, 6, 0, 0, 0, 0, 0, 0, 0, 0, 0, 0, 0}, 200, false,
          "segment with >=1 array whose byte count is not a multiple of the node size, or >=6 releases "
          "in an order different from allocation order and its reverse, or a cycle with k>=3"},
         {"C05", O_CORE | O_UPSTREAM, FB(F_POOL) | FB(F_COLL) | FB(F_STACK) | FB(F_ITER),
-         {30, 10, 4, 2, 20, 0, 6, 8, 3, 6, 2, 3, 3, 2, 3, 1, 0, 2, 4, 2, 0, 4, 0, 0, 0, 0, 0, 0}, 200, true,
+         {30, 10, 4, 2, 20, 0, 6, 8, 3, 6, 2, 3, 3, 2, 3, 1, 0, 2, 4, 2, 0, 4, 0, 0, 0, 0, 0, 0, 0}, 200, true,
          ">=3 upstream blocks acquired and one of: a shrink_to_fit with cached blocks / a move or swap "
          "with >=2 blocks / an injected failure at k>=2 / destruction with live allocations"},
         {"C06", O_CORE | O_UNWIND, FB(F_STACK),
-         {40, 10, 6, 2, 4, 0, 14, 10, 0, 4, 0, 1, 1, 0, 0, 3, 0, 0, 4, 0, 0, 0, 8, 0, 0, 0, 0, 0}, 200, false,
+         {40, 10, 6, 2, 4, 0, 14, 10, 0, 4, 0, 1, 1, 0, 0, 3, 0, 0, 4, 0, 0, 0, 8, 0, 0, 0, 0, 0, 0}, 200, false,
          "an unwind that drops >=1 block with >=2 nested markers alive and a replay of >=3 requests"},
         {"C07", O_CORE | O_ITER, FB(F_ITER),
-         {40, 10, 10, 4, 4, 0, 0, 0, 16, 0, 0, 2, 2, 0, 1, 4, 0, 0, 4, 2, 3, 0, 0, 0, 0, 0, 0, 0}, 200, false,
+         {40, 10, 10, 4, 4, 0, 0, 0, 16, 0, 0, 2, 2, 0, 1, 4, 0, 0, 4, 2, 3, 0, 0, 0, 0, 0, 0, 0, 0}, 200, false,
          ">=N+1 next_iteration calls with allocations of >=2 iterations alive at once (N>=2), or a "
          "block size with size mod N != 0"},
         {"C12", O_CORE | O_UPSTREAM | O_MOVE, FB(F_POOL) | FB(F_COLL) | FB(F_STACK) | FB(F_ITER),
-         {30, 10, 4, 2, 20, 0, 3, 3, 3, 2, 2, 8, 8, 5, 6, 3, 0, 1, 2, 3, 0, 0, 0, 0, 0, 0, 0, 0}, 160, false,
+         {30, 10, 4, 2, 20, 0, 3, 3, 3, 2, 2, 8, 8, 5, 6, 3, 0, 1, 2, 3, 0, 0, 0, 0, 0, 0, 0, 0, 0}, 160, false,
          "a move/move-assignment/swap with >=3 live allocations (>=2 blocks for growing subjects), "
          "followed by >=2 more operations on the new owner, moved-from object destroyed"},
         {"C15", O_CORE | O_LEAK, FB(F_POOL) | FB(F_COLL) | FB(F_STACK),
-         {30, 16, 0, 0, 24, 0, 2, 2, 0, 1, 1, 5, 5, 2, 3, 1, 0, 1, 0, 0, 0, 0, 0, 0, 0, 0, 0, 0}, 120, false,
-         "net != 0 at destruction after >=1 move, or >=1 array with element size != node size"},
+         {30, 16, 0, 0, 24, 0, 2, 2, 0, 1, 1, 5, 5, 2, 3, 1, 0, 1, 0, 0, 0, 0, 0, 0, 0, 0, 0, 0, 3}, 120, false,
+         "net != 0 at destruction after >=1 move, or >=1 array with element size != node size, or a low-level "
+         "allocator history in a child process whose exit report is compared with its net"},
         {"C16", O_CORE | O_NOREPORT | O_BADREL, FB(F_POOL) | FB(F_COLL) | FB(F_STACK),
-         {30, 10, 4, 2, 40, 0, 4, 6, 0, 2, 1, 1, 1, 0, 0, 2, 0, 4, 0, 0, 0, 0, 0, 10, 0, 0, 0, 0}, 200, false,
+         {30, 10, 4, 2, 40, 0, 4, 6, 0, 2, 1, 1, 1, 0, 0, 2, 0, 4, 0, 0, 0, 0, 0, 10, 0, 0, 0, 0, 0}, 200, false,
          "valid prefix with >=6 releases in non-monotonic address order (no report may fire) followed by a "
          "covered invalid release executed in a forked child, or such a valid history without a bad call"},
         {"C17", O_CORE | O_FILL, ALL_FAM,
-         {30, 12, 6, 4, 30, 0, 3, 3, 3, 1, 1, 1, 1, 0, 0, 3, 0, 2, 2, 0, 0, 0, 0, 0, 0, 0, 0, 0}, 160, false,
+         {30, 12, 6, 4, 30, 0, 3, 3, 3, 1, 1, 1, 1, 0, 0, 3, 0, 2, 2, 0, 0, 0, 0, 0, 0, 0, 0, 0, 0}, 160, false,
          "fill-enabled case with >=4 fresh allocations checked for the new-memory pattern and >=2 "
          "releases to a pool checked for the freed-memory pattern"},
         {"C18", O_CORE | O_CAPS, FB(F_POOL) | FB(F_COLL) | FB(F_STACK) | FB(F_ITER) | FB(F_STATIC),
-         {30, 14, 6, 4, 24, 6, 3, 3, 3, 1, 4, 1, 1, 0, 0, 1, 0, 1, 3, 1, 10, 0, 0, 0, 0, 0, 0, 12}, 160, false,
+         {30, 14, 6, 4, 24, 6, 3, 3, 3, 1, 4, 1, 1, 0, 0, 1, 0, 1, 3, 1, 10, 0, 0, 0, 0, 0, 0, 12, 0}, 160, false,
          "history with >=1 array and >=1 upstream growth whose counter deltas were all checked, or a "
          ">=1 successful capacity probe, or a min_block_size check with n > 255 or a node size that is not a "
          "multiple of 8"},
         {"C08", O_CORE | O_SIBLING, FB(F_POOL) | FB(F_COLL) | FB(F_STACK) | FB(F_ITER),
-         {20, 8, 16, 8, 24, 0, 2, 2, 2, 1, 1, 1, 1, 0, 0, 2, 0, 1, 2, 3, 0, 0, 0, 0, 24, 10, 30, 0}, 160, false,
+         {20, 8, 16, 8, 24, 0, 2, 2, 2, 1, 1, 1, 1, 0, 0, 2, 0, 1, 2, 3, 0, 0, 0, 0, 24, 10, 30, 0, 0}, 160, false,
          "two sibling allocators on one slab with >=1 foreign-pointer probe answered while both hold live "
          "allocations, and the probing allocator was full (a try_ allocation failed) at least once or "
          "the blocks of the siblings are adjacent (zero gap)"},
@@ -2066,6 +2071,145 @@ namespace
             ci.classes.insert("min-block-size");
         }
 
+        //--- C15: the stateless low-level allocators report their process-wide net once at exit ---//
+        unsigned n_ll_exit = 0;
+        static int& ll_fd()
+        {
+            static int fd = -1;
+            return fd;
+        }
+        static void ll_leak_handler(const fm::allocator_info& info, std::ptrdiff_t amount)
+        {
+            char buf[200];
+            int  n = std::snprintf(buf, sizeof buf, "LEAK %s %ld\n", info.name, long(amount));
+            if (ll_fd() >= 0 && n > 0)
+                (void)!write(ll_fd(), buf, size_t(n));
+        }
+        template <class A>
+        static std::ptrdiff_t ll_history(uint32_t a, uint32_t b, unsigned leave)
+        {
+            using traits = fm::allocator_traits<A>;
+            A                                     alloc;
+            std::vector<std::pair<void*, size_t>> live;
+            std::ptrdiff_t                        net = 0;
+            unsigned                              n   = 3 + a % 12;
+            for (unsigned i = 0; i < n; ++i)
+            {
+                size_t size = 1 + (a * 31 + b * 7 + i * 97) % 3000;
+                void*  p    = traits::allocate_node(alloc, size, 8);
+                live.emplace_back(p, size);
+                if ((b >> i) % 3 == 0 && live.size() > 1)
+                {
+                    auto v = live[(b + i) % live.size()];
+                    traits::deallocate_node(alloc, v.first, v.second, 8);
+                    live.erase(live.begin() + long((b + i) % live.size()));
+                }
+            }
+            // leave `leave` allocations behind, release the rest
+            while (live.size() > leave)
+            {
+                traits::deallocate_node(alloc, live.back().first, live.back().second, 8);
+                live.pop_back();
+            }
+            for (auto& v : live)
+                net += std::ptrdiff_t(v.second);
+            return net;
+        }
+        void op_ll_exit(const Op& op)
+        {
+            if (!has(O_LEAK) || !leak_on)
+            {
+                ++ci.noops;
+                return;
+            }
+            int fds[2];
+            if (pipe(fds) != 0)
+                return;
+            std::fflush(nullptr);
+            pid_t pid = fork();
+            if (pid == 0)
+            {
+                close(fds[0]);
+                alarm(20);
+                signal(SIGABRT, SIG_DFL);
+                ll_fd() = fds[1];
+                fm::set_leak_handler(ll_leak_handler);
+                unsigned       leave = op.c % 3; // 0: balanced
+                std::ptrdiff_t net   = 0;
+                const char*    name  = "";
+                switch (op.a % 4)
+                {
+                case 0:
+                    net  = ll_history<fm::heap_allocator>(op.a, op.b, leave);
+                    name = "heap_allocator";
+                    break;
+                case 1:
+                    net  = ll_history<fm::malloc_allocator>(op.a, op.b, leave);
+                    name = "malloc_allocator";
+                    break;
+                case 2:
+                    net  = ll_history<fm::new_allocator>(op.a, op.b, leave);
+                    name = "new_allocator";
+                    break;
+                default:
+                    net  = ll_history<fm::virtual_memory_allocator>(op.a, op.b, leave);
+                    name = "virtual_memory_allocator";
+                }
+                char buf[200];
+                int  n = std::snprintf(buf, sizeof buf, "EXPECT %s %ld %u\n", name, long(net), leave);
+                (void)!write(fds[1], buf, size_t(n));
+                std::exit(0); // static destructors: the global leak checkers report now
+            }
+            close(fds[1]);
+            std::string out;
+            char        buf[512];
+            ssize_t     n;
+            while ((n = read(fds[0], buf, sizeof buf)) > 0)
+                out.append(buf, size_t(n));
+            close(fds[0]);
+            int status = 0;
+            waitpid(pid, &status, 0);
+            if (!WIFEXITED(status) || WEXITSTATUS(status) != 0)
+            {
+                fail("ll-exit-crash", "child with a low-level allocator history died (status " + std::to_string(status) + ")");
+                return;
+            }
+            char  name[64] = "";
+            long  net      = 0;
+            unsigned leave = 0;
+            auto  pos      = out.find("EXPECT ");
+            if (pos == std::string::npos || std::sscanf(out.c_str() + pos, "EXPECT %63s %ld %u", name, &net, &leave) != 3)
+                return;
+            unsigned reports = 0;
+            long     amount  = 0;
+            size_t   q       = 0;
+            while ((q = out.find("LEAK ", q)) != std::string::npos)
+            {
+                char nm[160];
+                long am = 0;
+                if (std::sscanf(out.c_str() + q, "LEAK %159s %ld", nm, &am) == 2 && std::string(nm).find(name) != std::string::npos)
+                {
+                    ++reports;
+                    amount = am;
+                }
+                else if (std::sscanf(out.c_str() + q, "LEAK %159s %ld", nm, &am) == 2)
+                    fail("ll-exit-foreign", std::string("an allocator that was not used reported a leak at exit: ") + nm);
+                q += 5;
+            }
+            if (net == 0 && reports != 0)
+                fail("ll-exit-spurious", std::string(name) + " reported " + std::to_string(amount) + " at exit although balanced");
+            else if (net != 0 && reports != 1)
+                fail("ll-exit-count", std::string(name) + ": net " + std::to_string(net) + " at exit but "
+                                          + std::to_string(reports) + " reports");
+            else if (net != 0 && fence_size == 0 && amount != net)
+                fail("ll-exit-amount", std::string(name) + ": net " + std::to_string(net) + " but reported "
+                                           + std::to_string(amount));
+            else if (net != 0 && fence_size != 0 && amount < net)
+                fail("ll-exit-amount", std::string(name) + ": reported less than the net");
+            ++n_ll_exit;
+            ci.classes.insert(net ? "ll-exit-leak" : "ll-exit-balanced");
+        }
+
         //--- C16: covered invalid releases, each in a forked child ---//
         struct Freed
         {
@@ -2103,7 +2247,7 @@ namespace
             pid_t pid = fork();
             if (pid == 0)
             {
-                alarm(3); // a bad call takes microseconds; the inherited handler exits with 87
+                alarm(6); // a bad call takes microseconds; the inherited handler exits with 87
                 signal(SIGABRT, SIG_DFL); // assertion / unreachable aborts must stay SIGABRT
                 fm::set_invalid_pointer_handler(child_invalid_handler);
                 int rc = 44;
@@ -2134,7 +2278,7 @@ namespace
             else if (WIFEXITED(status) && WEXITSTATUS(status) == 44)
                 what = "not reported: the call returned normally";
             else if (WIFEXITED(status) && WEXITSTATUS(status) == 87)
-                what = "neither reported nor stopped: the call did not return within 3 s (hang)";
+                what = "neither reported nor stopped: the call did not return within 6 s (hang)";
             else if (WIFEXITED(status))
                 what = "child exited with status " + std::to_string(WEXITSTATUS(status))
                        + " (memory error before any report)";
@@ -2399,7 +2543,7 @@ namespace
             else if (p == "C12")
                 nt = n_moves_2blocks > 0 && n_ops_after_move >= 2 && n_zombie_destroyed + 1 > 0;
             else if (p == "C15")
-                nt = leak_on && ((model_net != 0 && n_moves > 0) || n_arrays_odd > 0);
+                nt = leak_on && ((model_net != 0 && n_moves > 0) || n_arrays_odd > 0 || n_ll_exit > 0);
             else if (p == "C16")
                 nt = (n_release >= 6 && dir_changes >= 2) || (n_bad_calls >= 1 && n_release >= 2);
             else if (p == "C17")
@@ -2618,6 +2762,9 @@ namespace
                     break;
                 case K_min_block:
                     op_min_block(op);
+                    break;
+                case K_ll_exit:
+                    op_ll_exit(op);
                     break;
                 default:
                     ++ci.noops;
